@@ -3,6 +3,7 @@
 # (VERIF_REPO), with evidence redirected so that committed evidence is never overwritten. Prints the verdict.
 wt=$1; diff=$2; prop=$3; tier=${4:-quick}
 cd "$wt" || exit 2
+git checkout -q -- . ; git checkout -q --detach "$(git -C /repo rev-parse HEAD)" || exit 2
 git checkout -q -- . && git apply "$diff" || { echo "APPLY-FAILED $diff"; exit 2; }
 out=$(mktemp -d /tmp/mutcheck.XXXXXX)
 ( cd /verif && VERIF_REPO="$wt" VERIF_EVIDENCE_DIR="$out" timeout 3600 ./check "$prop" --tier "$tier" > "$out/log" 2>&1; echo "exit=$?" >> "$out/log" )
